@@ -217,7 +217,12 @@ def sm_names(ctx):
             continue
         subs = [n for n in ast.walk(m.node) if isinstance(n, ast.Subscript) and
                 norm_text(n.value) == 'self.transform' and isinstance(n.slice, ast.Tuple)]
-        ctx.need(subs, 'Parameters.apply does not index self.transform')
+        if not subs:
+            # another spelling (a deviation matrix, np.nonzero, ...): SM-PARAMS executes the table
+            # part of Parameters.apply and decides the same question semantically
+            ctx.info('SM-ROLE', 'Parameters.apply does not index self.transform element-wise; '
+                                'the column / element pairing is decided by SM-PARAMS')
+            continue
         for sb in subs:
             idx = [norm_text(e) for e in sb.slice.elts]
             ctx.ob('SM-ROLE', idx == vars_, None,
@@ -599,6 +604,22 @@ class _AH:
 
     def __init__(self):
         self.frame = None
+
+    def compare(self, ev, node, a, b):
+        # the transform and the bias are GENERIC here (free symbols): an (in)equality between
+        # expressions that differ as polynomials is decided the way it is for almost every value
+        # (which elements get a column in the parameter table is SM-PARAMS' question, not this
+        # rule's)
+        A = ev.A
+        if len(node.ops) != 1 or not isinstance(node.ops[0], (ast.Eq, ast.NotEq)):
+            return None
+        try:
+            d = A.sub(ev.rat(a), ev.rat(b))
+        except Exception:
+            return None
+        if A.is_const(d) or not all(x[0] in 'tb' and x[1:].isdigit() for x in A.atoms_of(d)):
+            return None
+        return isinstance(node.ops[0], ast.NotEq)
 
     def attr(self, ev, base, a, node):
         if isinstance(base, Opaque) and base.tag == 'rng':
@@ -1126,7 +1147,12 @@ def sm_table(ctx):
                    "but the table no longer names it, so it does not match the estimator's state "
                    "list" % (tpl, 'written' if bad and bad[1] else 'not written',
                              bad[0] if bad else '', norm_text(st.test)[:60]))
-    ctx.floor('SM-TABLE', n, 2, 'parameter-table column conditions')
+    if n < 2:
+        # another spelling of the table part (no `if <condition>: data_frame[f'...'] = ...`):
+        # SM-PARAMS, which is registered wherever this rule is, executes the table part with
+        # infinitesimal deviations and decides the same question
+        ctx.info('SM-TABLE', '%d column conditions of the expected form; the table part is decided '
+                             'by SM-PARAMS' % n)
 
 
 def sm_first_dt(ctx):
